@@ -137,6 +137,43 @@ def run(chk, repo: Repo):
     _r3(chk, repo)
     _r4(chk, repo)
     _r2_rebuild(chk, repo)
+    _r2_five_tuple(chk, repo)
+
+
+def _r2_five_tuple(chk, repo):
+    """legacy 5-tuple input (data, model, L_sqrtprec, P_mean, P_sqrtprec): on the path where the tuple is accepted, the Posterior that is built has as
+    likelihood Gaussian(model, sqrtprec = tuple[2]).to_likelihood(tuple[0]) and as prior Gaussian(tuple[3], sqrtprec = tuple[4]) - each factor with its own
+    square-root precision (positions resolved through the locals the tuple is unpacked into)."""
+    from .common import canon_fn
+    from ..pathtable import walk_paths, _Sub
+    from ..pattern import norm as pn
+    from ..canon import clone as _clone
+    ci = repo.cls("cuqi/sampler/_rto.py:LinearRTO")
+    init = repo.method(ci, "__init__")[1]
+    v = canon_fn(repo, ci, init, 1)
+    t = func_params(init)[1]
+    val = {pn(f"isinstance({t},tuple)"): True, pn(f"len({t})==5"): True}
+    stops = [r for k_, r in walk_paths(v, val, pn, limit=64, stop_pred=lambda a_: isinstance(a_, ast.Assign) and isinstance(a_.value, ast.Call)
+                                       and (call_name(a_.value) or "").endswith("Posterior")) if k_ == "stop"]
+    problems = []
+    if not stops:
+        chk.unknown("C06-R2", f"{ci.qual}.__init__/5-tuple", site(repo, init), "construction of the posterior from the 5-tuple not found", init)
+        return
+
+    def kwargs_of(call):
+        return {k_.arg: pn(k_.value) for k_ in call.keywords if k_.arg}
+    for env, st in stops:
+        L, P = [_Sub(env).visit(_clone(a_)) for a_ in st.value.args[:2]] if len(st.value.args) >= 2 else (None, None)
+        okL = isinstance(L, ast.Call) and isinstance(L.func, ast.Attribute) and L.func.attr == "to_likelihood" and [pn(a_) for a_ in L.args] == [pn(f"{t}[0]")] \
+            and isinstance(L.func.value, ast.Call) and (call_name(L.func.value) or "").endswith("Gaussian") and kwargs_of(L.func.value).get("sqrtprec") == pn(f"{t}[2]")
+        okP = isinstance(P, ast.Call) and (call_name(P) or "").endswith("Gaussian") and P.args and pn(P.args[0]) == pn(f"{t}[3]") and kwargs_of(P).get("sqrtprec") == pn(f"{t}[4]")
+        if not okL:
+            problems.append(f"likelihood is `{pn(L)[:110] if L is not None else '?'}`, not Gaussian(model, sqrtprec={t}[2]).to_likelihood({t}[0])")
+        if not okP:
+            problems.append(f"prior is `{pn(P)[:110] if P is not None else '?'}`, not Gaussian({t}[3], sqrtprec={t}[4]): the prior block of the stacked operator and of the "
+                            f"right-hand side would be whitened with another factor than the prior's own")
+    chk.add("C06-R2", f"{ci.qual}.__init__/5-tuple", not problems, site(repo, init), "likelihood and prior each built with their own square-root precision",
+            "; ".join(sorted(set(problems))), init)
 
 
 def _r2_rebuild(chk, repo):
